@@ -1,4 +1,5 @@
 import GffProofs.Props.C19
+import GffProofs.Props.C11Sql2
 open GffProofs.C19
 #print axioms create_existing_fails_untouched
 #print axioms create_existing_keeps_file
@@ -11,3 +12,5 @@ open GffProofs.C19
 #print axioms read_history_no_write
 #print axioms reopen_after_reads
 #print axioms classification
+#print axioms GffProofs.C11Sql.reads_are_selects
+#print axioms GffProofs.C11Sql.render_is_select
